@@ -334,6 +334,13 @@ def for_loops(f):
             for b in f.reach([s]):
                 if f.can_reach(b, [bi]):
                     body.add(b)
+        # the natural loop: what can come back to the header without leaving through the None arm
+        # (`body` of an inner loop also contains the enclosing loop, which leads back here as well)
+        own = set()
+        for s in some:
+            for b in f.reach([s], cut_blocks=none):
+                if b not in none and (b == bi or f.can_reach(b, [bi], cut_blocks=none)):
+                    own.add(b)
         items = set()
         res_local = t["dest"][0]
         for s in some:
@@ -349,7 +356,7 @@ def for_loops(f):
         for l in sl["locals"]:
             if f.local_name(l) == "iter":
                 itl = l
-        out.append({"header": bi, "switch": c["switch_bb"], "some": some, "none": none, "body": body,
+        out.append({"header": bi, "switch": c["switch_bb"], "some": some, "none": none, "body": body, "own_body": own,
                     "item_local": item, "item_locals": items, "iter_local": itl if itl is not None else op_local(t["a"][0])})
     return out
 
